@@ -143,6 +143,10 @@ func judge(b *base, pl *plan, sc *tcpx.Scenario, res *tcpx.Result) {
 		key := "C02/stall/" + b.Name + "/drop=" + pl.Class
 		if k2, _ := stallKey(sc, res); strings.HasPrefix(b.Name, "zero-window") && strings.HasPrefix(pl.Class, "delay") && strings.Contains(k2, "reordered-window-update") {
 			key = k2
+		} else if strings.HasPrefix(b.Name, "zero-window") && len(pl.Drops) > 0 && strings.Contains(k2, "lost-window-update") {
+			// decided from the wire, whatever the plan called the dropped packet: the sender last
+			// saw window 0 and the receiver's latest advertisement (window > 0) was the one dropped
+			key = k2
 		} else if strings.HasPrefix(b.Name, "zero-window") && strings.Contains(pl.Class, "winupd") {
 			// the specific failing input: the receive window closed with nothing left in
 			// flight, and the pure ACK that reopens it is lost
